@@ -472,10 +472,15 @@ class HashRule(ABC):
             symbol_part += "."
             part_i = parts[i]
             symbol_part += part_i
-            ref_to_resolve = ref
+            path = parts[0 : i + 1]
 
             def resolver():
-                return getattr(ref_to_resolve, part_i)
+                # Start again from the global table each time: the head of the dotted name
+                # may have been re-bound to another object since the rule was created.
+                obj = global_table[path[0]] if path[0] in global_table else None
+                for part in path[1:]:
+                    obj = getattr(obj, part, None)
+                return obj
 
             ref = resolver()
             rule = resolve_symbol(parent_symbol, symbol_part, resolver, ref)
